@@ -9,5 +9,6 @@ INVARIANT SizeCheck
 INVARIANT DictBudget
 INVARIANT NoMutationVisitsAll
 INVARIANT DictNoRepeatWithoutStore
-INVARIANT PyxDictAgreesOffHazard
+INVARIANT PyxTempsOK
+INVARIANT PyxDictAgrees
 INVARIANT Publish
